@@ -1029,6 +1029,9 @@ func (r *Resolver) answer(ctx context.Context, req, resp *dns.Msg, parentDS []dn
 		if r.dnssec && !r.hasTrustAnchors() {
 			return nil, dnssec.ErrTrustAnchorsUnavailable
 		}
+		if parentDS, err = r.rootParentDS(ctx, parentDS, zone); err != nil {
+			return nil, err
+		}
 		q := req.Question[0]
 
 		signers := r.findRRSIGSigners(resp, q.Name, true)
@@ -1193,6 +1196,10 @@ func (r *Resolver) authority(ctx context.Context, req, resp *dns.Msg, parentDS [
 	if !req.CheckingDisabled {
 		if r.dnssec && !r.hasTrustAnchors() {
 			return nil, dnssec.ErrTrustAnchorsUnavailable
+		}
+		var err error
+		if parentDS, err = r.rootParentDS(ctx, parentDS, zone); err != nil {
+			return nil, err
 		}
 		q := req.Question[0]
 
@@ -2444,6 +2451,19 @@ func (r *Resolver) findDS(ctx context.Context, signer, qname string, parentDS []
 	dsset = parentDS
 
 	return
+}
+
+// rootParentDS gives a response served by the root the only parent it has:
+// the configured trust anchors. No referral leads to the root, so no DS is
+// ever inherited for it, and an empty DS set reads as "insecure" everywhere
+// below — an unsigned or mis-signed answer that (claims to) come from a root
+// server would be accepted as data from an unsigned zone. validateDelegation
+// already anchors root referrals this way.
+func (r *Resolver) rootParentDS(ctx context.Context, parentDS []dns.RR, zone string) ([]dns.RR, error) {
+	if !r.dnssec || len(parentDS) != 0 || zone != rootzone {
+		return parentDS, nil
+	}
+	return r.dsRRFromRootKeys(ctx)
 }
 
 // isZoneSecure determines whether a missing RRSIG for qname should be treated
